@@ -94,7 +94,8 @@ Proof.
   destruct (neighborhood N s row orc) as [idx|]; [|discriminate].
   destruct idx as [|i idx].
   - destruct p.
-    + destruct (draw_z RG (create RG seed) (RqChoice (length (n_arms s)) (n_nnprob s))) as [v g'] eqn:Ed.
+    + destruct (negb (nnprob_len_ok s)); [discriminate|].
+      destruct (draw_z RG (create RG seed) (RqChoice (length (n_arms s)) (n_nnprob s))) as [v g'] eqn:Ed.
       intros E; injection E as <- <-. split; [|auto]. simpl. split; [reflexivity|]. intros Hne.
       assert (Hpos : (0 < length (n_arms s))%nat) by (destruct (n_arms s); [congruence | simpl; lia]).
       pose proof (proj1 (Hidx (create RG seed) _ Hpos) (n_nnprob s)) as Hv. rewrite Ed in Hv. simpl in Hv.
